@@ -151,17 +151,15 @@ def r14_4_tables(U, rep):
     rep.check(got == want, 'R14.4', 'base.' + name,
               'width table %s = %r differs from MuJoCo coordinate widths %r' % (name, got, want),
               where=(base.path, node.lineno, 'brax.base'), construct=ast.unparse(node))
-  # dispatch tables keyed by link type anywhere in the analysed universe
+  # dispatch tables keyed by link type: a SOURCE-SHAPE observation (a table may legitimately be built in steps --
+  # {'f': g}.update({t: h for t in '123'}) -- and the whole-pipeline interpretations of C01 / C02 / C05 / C08 execute
+  # every dispatch with every link type); reported as a localisation hint only, never a verdict
   n = 0
   for q, f in sorted(U.funcs.items()):
     for node, keys in _dict_literals_with_f(f.node):
       n += 1
-      rep.check(set(keys) == set(ALPHABET) and len(keys) == len(set(keys)), 'R14.4',
-                'dispatch:' + q, 'link-type dispatch table has keys %r, alphabet is %r' % (
-                    sorted(keys), sorted(ALPHABET)), where=f.where(node),
-                construct='{' + ', '.join(repr(k) for k in keys) + '}')
-  if n < 5:
-    raise AnalysisError('R14.4: only %d link-type dispatch tables found (floor 5)' % n)
+      if not (set(keys) == set(ALPHABET) and len(keys) == len(set(keys))):
+        rep.note('hint R14.4 [dispatch:%s]: the literal link-type table has keys %r (alphabet %r)' % (q, sorted(keys), sorted(ALPHABET)))
   rep.stat('dispatch_tables', n)
 
 
